@@ -1,6 +1,7 @@
 package posix
 
 import (
+	"bytes"
 	"context"
 	"encoding/json"
 	"sort"
@@ -397,9 +398,21 @@ func VfDeleteBucketEmptiness() {
 	cfg := vfConfig{versioning: zzvf.Choice("versioning_dir", 2) == 1}
 	p := vfNewPosix(cfg)
 	zzvf.Assert(p.CreateBucket(vfCtxOf("alice"), &s3.CreateBucketInput{Bucket: vfStr("bkt")}, vfACL("alice")) == nil, "setup-create-bucket")
-	content := zzvf.Choice("bucket_content", 4)
+	content := zzvf.Choice("bucket_content", 6)
 	hasObjects := false
 	switch content {
+	case 4: // only directory objects (keys ending in "/"), no file anywhere
+		k1 := "inbox/"
+		zero := int64(0)
+		_, perr := p.PutObject(vfCtxOf("alice"), s3response.PutObjectInput{Bucket: vfStr("bkt"), Key: &k1, Body: bytes.NewReader(nil), ContentLength: &zero})
+		zzvf.Assert(perr == nil, "setup-directory-object")
+		hasObjects = true
+	case 5: // a nested directory object
+		k2 := "reports/2024/"
+		zero := int64(0)
+		_, perr := p.PutObject(vfCtxOf("alice"), s3response.PutObjectInput{Bucket: vfStr("bkt"), Key: &k2, Body: bytes.NewReader(nil), ContentLength: &zero})
+		zzvf.Assert(perr == nil, "setup-directory-object")
+		hasObjects = true
 	case 1:
 		zzvfos.MkdirAll("bkt/"+metaTmpDir, 0o755)
 	case 2:
